@@ -27,9 +27,11 @@ def str_subscripts(f, base):
 def float_param_aliases(f):
     """Names that hold the float being encoded: the data parameter and locals bound to it / float(it)."""
     ps = flow.param_names(f)
-    if len(ps) < 2:
+    if ps and ps[0] in ('self', 'cls'):
+        ps = ps[1:]
+    if not ps:
         return set()
-    al = {ps[1]}
+    al = {ps[0]}
     changed = True
     while changed:
         changed = False
@@ -98,8 +100,14 @@ def check(ctx):
         if not enc or not dec:
             continue
         keys = set()
+        returned = {r_.value.id for r_ in walk_no_nested(enc) if isinstance(r_, ast.Return) and isinstance(r_.value, ast.Name)}
         for n in walk_no_nested(enc):
             if isinstance(n, ast.Dict):
+                # the JSON object this encoder returns: the returned display, or the display bound to the returned local
+                par = getattr(n, '_parent', None)
+                is_result = isinstance(par, ast.Return) or (isinstance(par, ast.Assign) and any(isinstance(t_, ast.Name) and t_.id in returned for t_ in par.targets))
+                if not is_result:
+                    continue
                 for k in n.keys:
                     if isinstance(k, ast.Constant) and isinstance(k.value, str):
                         keys.add(k.value)
@@ -191,46 +199,102 @@ def check(ctx):
     if n2 < 5:
         raise AnalysisError('C02.R2 saw only %d literal agreements' % n2)
 
-    # ---- R3
+    # ---- R3 (over Real.encode and the methods / functions it delegates to)
+    from .. import defaults
+    SPECIALS = ("float('inf')", "float('-inf')", 'isnan(')
+
+    def excluded(conds):
+        """the three special values have been tested and excluded by these conditions"""
+        return all(any(sp in c[0] and not c[1] for c in conds) for sp in SPECIALS)
+
+    def is_template_format(call):
+        return isinstance(call, ast.Call) and isinstance(call.func, ast.Attribute) and call.func.attr == 'format' and isinstance(call.func.value, ast.Constant)
     for rel in (JER, XER):
         c = model.cls(rel, 'Real')
-        f = c.methods['encode']
-        al = float_param_aliases(f)
+        f = c.find_method('encode')[1]
+        fam = [g_ for g_ in flow.local_reach(model, f, limit=3) if g_._mod.rel == rel]
+        short = model.mod(rel).short
         # a) arithmetic on the float
         bad = []
-        for n in walk_no_nested(f):
-            if isinstance(n, ast.AugAssign) and isinstance(n.target, ast.Name) and n.target.id in al and isinstance(n.op, (ast.Div, ast.Mult, ast.Add, ast.Sub, ast.FloorDiv, ast.Pow, ast.Mod)):
-                bad.append(n)
-            if isinstance(n, ast.BinOp) and isinstance(n.op, (ast.Div, ast.Mult, ast.Add, ast.Sub, ast.FloorDiv, ast.Pow, ast.Mod)):
-                for side in (n.left, n.right):
-                    if isinstance(side, ast.Name) and side.id in al:
-                        bad.append(n)
-        ctx.instance('C02.R3', '%s.Real.encode: no arithmetic on the float' % model.mod(rel).short, 'ok' if not bad else 'VIOLATION', node=f, file=rel)
+        for g_ in fam:
+            al = float_param_aliases(g_)
+            for n in walk_no_nested(g_):
+                if isinstance(n, ast.AugAssign) and isinstance(n.target, ast.Name) and n.target.id in al and isinstance(n.op, (ast.Div, ast.Mult, ast.Add, ast.Sub, ast.FloorDiv, ast.Pow, ast.Mod)):
+                    bad.append(n)
+                if isinstance(n, ast.BinOp) and isinstance(n.op, (ast.Div, ast.Mult, ast.Add, ast.Sub, ast.FloorDiv, ast.Pow, ast.Mod)):
+                    for side in (n.left, n.right):
+                        if isinstance(side, ast.Name) and side.id in al:
+                            bad.append(n)
+        ctx.instance('C02.R3', '%s.Real.encode: no arithmetic on the float (%d functions)' % (short, len(fam)), 'ok' if not bad else 'VIOLATION', node=f, file=rel)
         for n in bad[:1]:
             ctx.violation('C02.R3', rel, n, '%s::Real.encode' % rel,
                           'the float is scaled with binary floating-point arithmetic (%s) before being formatted: powers of ten are inexact, so the text no longer identifies the '
                           'same double (123456789.12345679 does not round-trip)' % norm_stmt(Model.enclosing_stmt(n)), stmt='float arithmetic before formatting')
         # b) exponent appended to a raw float
-        for n in walk_no_nested(f):
-            if isinstance(n, ast.Call) and isinstance(n.func, ast.Attribute) and n.func.attr == 'format' and isinstance(n.func.value, ast.Constant) and isinstance(n.func.value.value, str):
-                t = n.func.value.value
-                if '{}E' in t or '{}e' in t:
-                    raw = n.args and isinstance(n.args[0], ast.Name) and n.args[0].id in al
-                    ctx.instance('C02.R3', '%s.Real.encode template %r' % (model.mod(rel).short, t), 'ok' if not raw else 'VIOLATION', node=n, file=rel)
-                    if raw:
-                        ctx.violation('C02.R3', rel, n, '%s::Real.encode' % rel,
-                                      'the template %r appends an exponent to the `{}`-formatted float, whose text may already carry one (5e-324 -> 5e-324E0, which cannot be decoded)' % t,
-                                      stmt='template %r on raw float' % t)
-        # c) special values first
-        loops_ = [n for n in walk_no_nested(f) if isinstance(n, (ast.While, ast.For))]
-        fmts = [n for n in walk_no_nested(f) if isinstance(n, ast.Call) and isinstance(n.func, ast.Attribute) and n.func.attr == 'format']
-        first_use = min([n.lineno for n in loops_ + fmts] or [10 ** 9])
-        for sp in ("float('inf')", "float('-inf')", 'math.isnan('):
-            tests = [n for n in walk_no_nested(f) if isinstance(n, ast.If) and sp in ast.unparse(n.test)]
-            ok = bool(tests) and tests[0].lineno < first_use
-            ctx.instance('C02.R3', '%s.Real.encode tests %s before any loop/formatting' % (model.mod(rel).short, sp), 'ok' if ok else 'VIOLATION', node=f, file=rel)
-            if not ok:
-                ctx.violation('C02.R3', rel, f, '%s::Real.encode' % rel,
+        for g_ in fam:
+            al = float_param_aliases(g_)
+            for n in walk_no_nested(g_):
+                if is_template_format(n) and isinstance(n.func.value.value, str):
+                    t = n.func.value.value
+                    if '{}E' in t or '{}e' in t:
+                        raw = n.args and isinstance(n.args[0], ast.Name) and n.args[0].id in al
+                        ctx.instance('C02.R3', '%s.Real.encode template %r' % (short, t), 'ok' if not raw else 'VIOLATION', node=n, file=rel)
+                        if raw:
+                            ctx.violation('C02.R3', rel, n, '%s::Real.encode' % rel,
+                                          'the template %r appends an exponent to the `{}`-formatted float, whose text may already carry one (5e-324 -> 5e-324E0, which cannot be decoded)' % t,
+                                          stmt='template %r on raw float' % t)
+        # c) special values first: every loop / template formatting runs only after the three special values were excluded -- in the function
+        #    itself, or at every place the function is called from
+        allp = {}
+        for g_ in fam:
+            ps_ = sem.paths(g_)
+            allp[g_] = None if ps_ is None else sem.with_loop_bodies(ps_)
+
+        def context_ok(g_, seen=()):
+            if g_ is f or g_ in seen:
+                return False
+            sites = 0
+            for h_, ps_ in allp.items():
+                if ps_ is None or h_ is g_:
+                    continue
+                for p_, conds_, node_, _sx in defaults.call_events(ps_):
+                    nm_ = sem.callee_name(node_)
+                    if nm_ == g_.name and (isinstance(node_.func, ast.Name) or (isinstance(node_.func, ast.Attribute) and isinstance(node_.func.value, ast.Name)
+                                                                                  and node_.func.value.id in ('self', 'cls', c.name))):
+                        sites += 1
+                        if not (excluded(conds_) or context_ok(h_, seen + (g_,))):
+                            return False
+            return sites > 0
+        undecided_c = [g_ for g_, ps_ in allp.items() if ps_ is None]
+        first_bad = None
+        n_proc = 0
+        for g_, ps_ in allp.items():
+            if ps_ is None:
+                continue
+            for p_ in ps_:
+                at = None
+                n_ = 0
+                for ev in p_.events:
+                    if ev[0] == 'stmt':
+                        n_ = ev[1]
+                    if ev[0] == 'loop' or (ev[0] == 'call' and len(ev) > 3 and is_template_format(ev[2])):
+                        at = p_.conds[:n_] if ev[0] == 'call' else p_.conds
+                        break
+                if at is None and p_.outcome[0] == 'return' and len(p_.outcome) > 3 and any(is_template_format(x_) for x_ in ast.walk(p_.outcome[3])):
+                    at = p_.conds
+                if at is None:
+                    continue
+                n_proc += 1
+                if not excluded(at) and not context_ok(g_):
+                    first_bad = first_bad or (g_, [sp for sp in SPECIALS if not any(sp in c_[0] and not c_[1] for c_ in at)])
+        verdict = 'VIOLATION' if first_bad else ('undecided' if undecided_c else ('ok' if n_proc else 'n/a'))
+        ctx.instance('C02.R3', '%s.Real.encode excludes inf / -inf / nan before any loop or formatting (%d processing paths)' % (short, n_proc), verdict,
+                     'too many paths in %s' % undecided_c[0].name if undecided_c else ('' if n_proc else 'the float is not scaled or formatted with a template'),
+                     nontrivial=n_proc > 0, node=f, file=rel)
+        if first_bad:
+            g_, missing = first_bad
+            for sp in missing:
+                ctx.violation('C02.R3', rel, g_, '%s::Real.encode' % rel,
                               'the special value %s) is not handled before the float is processed (the sibling REAL encoders of ber/jer/gser all test it first): infinities '
                               'never leave a scaling loop or are formatted as "inf"' % sp, stmt='special value %s' % sp)
 
@@ -268,7 +332,18 @@ def check(ctx):
     jv = sem.View(je)
     dumps = [c for c in sem.method_calls(je, 'dumps', jv) if c.args]
     objs = {jv.text(c.args[0]) for c in dumps}
-    ok = len(dumps) >= 1 and len(objs) == 1 and any(any(k.arg == 'indent' for k in c.keywords) for c in dumps)
+    def passes_indent(c_):
+        for k in c_.keywords:
+            if k.arg == 'indent':
+                return True
+            if k.arg is None and isinstance(k.value, ast.Name):
+                # **options, where options is bound to a display with an 'indent' key somewhere in the function
+                for a_ in walk_no_nested(je):
+                    if isinstance(a_, ast.Assign) and any(isinstance(t_, ast.Name) and t_.id == k.value.id for t_ in a_.targets) and isinstance(a_.value, ast.Dict) \
+                            and any(isinstance(kk, ast.Constant) and kk.value == 'indent' for kk in a_.value.keys):
+                        return True
+        return False
+    ok = len(dumps) >= 1 and len(objs) == 1 and any(passes_indent(c) for c in dumps)
     ctx.instance('C02.R4', 'JER indentation is json.dumps(indent=...) of the same object', 'ok' if ok else 'VIOLATION', node=je, file=JER)
     if not ok:
         ctx.violation('C02.R4', JER, je, Model.qual(je), 'the indented and the compact JER outputs are no longer json.dumps of the same object', stmt='json indent')
